@@ -1,0 +1,21 @@
+//go:build verif
+
+package deque
+
+// Read-only accessors for the verification harness. Compiled only with -tags verif; they never
+// write to the deque.
+
+// VerifState returns len(d.a), d.front, d.back and d.gen.
+func (d *Deque[T]) VerifState() (capacity, front, back, gen int) {
+	return len(d.a), d.front, d.back, d.gen
+}
+
+// VerifSlots returns a copy of the raw ring buffer (nil if it is not allocated).
+func (d *Deque[T]) VerifSlots() []T {
+	if d.a == nil {
+		return nil
+	}
+	out := make([]T, len(d.a))
+	copy(out, d.a)
+	return out
+}
